@@ -29,6 +29,7 @@ const (
 	whatBatchLimit   = "BatchReadBlobs served a request exceeding the configured maximum total size"
 	whatFindMissing  = "FindMissingBlobs did not return exactly the requested digests the backend lacks"
 	whatClient       = "client and server back to back do not behave like the backend"
+	whatClientFM     = "FindMissing through client and server does not return exactly the requested digests the backend lacks"
 	whatAC           = "ActionCache Get/Update do not round-trip the stored message"
 	whatPanic        = "the service panicked"
 )
